@@ -103,7 +103,8 @@ func parseFunctions(fset *token.FileSet, pkg *types.Package, decl *ast.GenDecl, 
 	}
 
 	converter := config.RawConverter{
-		FileName:    location.Filename,
+		// the file that holds the declaration, not the one a //line directive names
+		FileName:    fset.PositionFor(decl.Pos(), false).Filename,
 		Converter:   converterLines,
 		Methods:     result,
 		PackageName: pkg.Name(),
@@ -168,11 +169,12 @@ func parseInterface(fset *token.FileSet, pkg *types.Package, typeSpec *ast.TypeS
 	}
 	converter := config.RawConverter{
 		InterfaceName: typeName,
-		FileName:      location.Filename,
-		Converter:     converterLines,
-		Methods:       methods,
-		PackageName:   pkg.Name(),
-		PackagePath:   pkg.Path(),
+		// the file that holds the declaration, not the one a //line directive names
+		FileName:    fset.PositionFor(typeSpec.Pos(), false).Filename,
+		Converter:   converterLines,
+		Methods:     methods,
+		PackageName: pkg.Name(),
+		PackagePath: pkg.Path(),
 	}
 	return converter, nil
 }
